@@ -314,7 +314,7 @@ class Gen(object):
         if not self.modelled and 0.40 <= r < 0.43:
             self.features.add('python-pi')
             return '<?python pv = %s ?>' % rng.choice(['1', 'len("ab")', 'n'])
-        if not self.modelled and 0.43 <= r < 0.47:
+        if 0.43 <= r < 0.47:
             return self.lazy_element(loopvars)
         if not self.modelled and 0.47 <= r < 0.50:
             return self.match_block()
@@ -369,6 +369,16 @@ class Gen(object):
         xs = rng.choice(VARS_LIST)
         body = rng.choice(self.LAZY_BODIES) % {'v': v}
         kind = rng.choice(['lazy-genexp', 'lazy-genexp', 'lambda-late', 'codeblock-generator'])
+        if self.modelled:
+            # the step model has the generator expression and map(lambda): mostly those, with bodies of its
+            # expression fragment (the tuple body stays as a case that must come back `unmodelled`)
+            kind = rng.choice(['lazy-genexp'] * 4 + ['lambda-late'] * 3 + ['codeblock-generator'])
+            body = rng.choice(self.LAZY_BODIES + ["x == %(v)s", "'%%s:%%s;' %% (x, %(v)s)", "%(v)s", "not %(v)s",
+                                                  "'<%%s>' %% x"]) % {'v': v}
+            r = rng.random()
+            if r < 0.08:
+                xs = rng.choice(['s', 'n'])     # a string is iterated by character, a number raises where the
+                                                # expression stands
         self.features.add(kind)
         tag = rng.choice(TAGS)
         pre = ''
@@ -377,6 +387,11 @@ class Gen(object):
         elif kind == 'lambda-late':
             if rng.random() < 0.3:
                 # defined by one expression, called from later ones
+                if self.modelled and rng.random() < 0.5:
+                    # ... in a context in which the name the body reads has been rebound meanwhile: the body sees
+                    # the Context as it is at the call
+                    return ('<%s py:with="g=lambda x: %s">${g(1)}<i py:with="%s=%s">${g(2)}</i><i py:for="%s in %s">${g(1)}</i></%s>'
+                            % (tag, esc_attr(body), v, rng.choice(VARS_ATOM + ["'W'"]), v, xs, tag))
                 return ('<%s py:with="g=lambda x: %s">${g(1)}<i py:for="y in %s">${g(y)}$%s</i></%s>'
                         % (tag, esc_attr(body), xs, rng.choice(VARS_ATOM), tag))
             src = 'map(lambda x: %s, %s)' % (body, xs)       # map() is lazy: the lambda runs item by item
@@ -386,9 +401,24 @@ class Gen(object):
             pre = '<?python\ndef %s():\n    for x in %s:\n        yield %s\n?>' % (fn, xs, body)
             src = fn + '()'
         other = rng.choice(VARS_ATOM)
+        if self.modelled:
+            r = rng.random()
+            if kind == 'codeblock-generator' and r < 0.3:
+                # the code block runs inside a scope (its function lands in that scope's dict) and the name its
+                # body reads is bound there
+                return ('<%s py:with="%s=%s">%s<i py:for="v in %s">$v</i>$%s</%s>${%s}'
+                        % (tag, v, rng.choice(VARS_ATOM + ["'W'"]), pre, esc_attr(src), other, tag, src))
+            if r < 0.25:
+                # the loop variable has the name the body reads late: when the next item is computed the loop's
+                # scope is not on the context
+                return pre + '<%s py:for="%s in %s">$%s<b>$%s</b></%s>' % (tag, v, esc_attr(src), v, other, tag)
+            if r < 0.55:
+                # the name is rebound around the loop: the body sees the binding in force at each next()
+                return pre + ('<%s py:with="%s=%s"><i py:for="v in %s">$v</i>$%s</%s>'
+                              % (tag, v, rng.choice(VARS_ATOM + ["'W'"]), esc_attr(src), other, tag))
         if rng.random() < 0.6:
             return pre + '<%s py:for="v in %s">$v<b>$%s</b></%s>' % (tag, esc_attr(src), other, tag)
-        return pre + '<%s>$%s${%s}</%s>' % (tag, other, src, tag)
+        return pre + '<%s>$%s${%s}</%s>' % (tag, other, src.replace('<', '&lt;'), tag)
 
     # a match template whose path test keeps state between events (multi-step, positional predicates, on
     # the first step too) next to a literal fragment on which it fires: a test function / position counter
